@@ -1226,7 +1226,10 @@ class Interp:
             return a == b
         if is_z3(a) or is_z3(b):
             if isinstance(a, bool) or isinstance(b, bool) or (is_z3(a) and is_z3(b) and a.sort() == z3.BoolSort() == b.sort()):
-                return lift(a) == lift(b)
+                la, lb = lift(a), lift(b)
+                if la.sort() != lb.sort():
+                    return False  # `x is True` for a symbolic value of another type (a str, an int): never the bool object
+                return la == lb
             if isinstance(a, (Rec, SymList, SymMap, list, dict, ClassRef)) or isinstance(b, (Rec, SymList, SymMap, list, dict, ClassRef)):
                 return False
             if is_z3(a) and is_z3(b) and a.sort() == b.sort() and a.sort().kind() == z3.Z3_UNINTERPRETED_SORT:
